@@ -1,10 +1,11 @@
 """C03 -- nothing below threshold; results well formed and ordered.  T: TraceV2 WellFormed on arbitrary inputs x 7 thresholds x corpora (odd names)."""
 import time
 from lib import vlib
-from checks.v2common import Acc, trace_leg
+from checks.v2common import Acc, trace_leg, match_model
 PID = "C03"
 def run():
     t0 = time.time(); v = vlib.Verdict(PID); acc = Acc()
+    match_model(acc, ["T70"])                                                    # InBounds of every candidate on the mechanism spec
     recs, lines = trace_leg(v, acc, "c03", [PID])
     ms = [r for r in lines if r.get("ev") == "match"]
     acc.nontrivial = len({r["hash"] + r["c"] for r in ms if len({m["r"] for m in r["ms"]}) >= 1 and r["ms"]})
